@@ -1,18 +1,26 @@
-"""Exploration for one property: corpus triggers, generated scenarios, correspondence obligations of
-the property's phases, the property oracle on every trace."""
+"""Exploration for one property: corpus triggers, generated scenarios, construction and per-phase
+correspondence obligations of the property, its oracles on every trace, its paired-run oracles."""
 from __future__ import annotations
 
 import json
 import random
 
 from harness.common import Driver, NonFinite, np
-from harness import capture, corpus, corr, known, oracles, props, scen
+from harness import capture, corpus, corr, known, oracles, oracles_ev, paired, props, scen
+
+STEP_FUNCS = dict(oracles.PER_STEP)
+STEP_FUNCS.update({"C08": oracles_ev.c08_step, "C09": oracles_ev.c09_step, "C10": oracles_ev.c10_step, "C11": oracles_ev.c11_step})
+RUN_FUNCS = {"c01": oracles.c01, "c05_run": oracles.c05_run, "c07_capital": oracles.c07_capital,
+             "c08_init": oracles_ev.c08_init, "c11_run": oracles_ev.c11_run}
 
 
-def nontrivial_step(pid, st, c):
+def nontrivial_step(pid, sc, st, c):
     """is this step non-trivial for the property (rule text in props.NONTRIVIAL)"""
     ph = st["phases"]
     try:
+        if pid == "C01":
+            tb, cfg = sc["table"], sc["model"]
+            return tb["kind"] != "dense" or bool(cfg.get("inf_sect")) or cfg.get("psi") in (1, 1.0) or bool(cfg.get("inventory_dict"))
         if pid == "C03":
             p = ph.get("production")
             if not p or p["post"] is None:
@@ -51,29 +59,91 @@ def nontrivial_step(pid, st, c):
             if not p or p["post"] is None:
                 return False
             return not np.array_equal(p["pre"]["econ"]["alpha"], p["post"]["econ"]["alpha"])
+        if pid in ("C08", "C09", "C10", "C11"):
+            p = ph.get("events_post")
+            q = ph.get("events_pre")
+            ch = False
+            for x in (p, q):
+                if x and x["post"] is not None:
+                    for a, b in zip(x["pre"]["trackers"], x["post"]["trackers"]):
+                        if a["status"] != b["status"]:
+                            ch = True
+                        for f in ("dmg", "arb", "remI", "remH", "hdmg"):
+                            if (a[f] is None) != (b[f] is None) or (a[f] is not None and not np.array_equal(a[f], b[f])):
+                                ch = True
+            if pid == "C11":
+                act = [t_ for t_ in (q["post"]["trackers"] if q and q["post"] else []) if t_["status"] in ("happening", "rebuilding", "recovering")]
+                return len(act) >= 2
+            return ch
+        if pid == "C13":
+            mf = sc["model"]["monetary_factor"]
+            return any(e.get("emf", mf) != mf for e in sc["events"])
     except Exception:
         return False
     return True
 
 
 def gen_for(stream, seed):
+    rng = random.Random(seed)
     if stream == "excess":
         sc = scen.gen_scenario(seed, "shocked", allow_excess=True, types=["recovery", "rebuild"])
         for ev in sc["events"]:
             if ev["type"] != "arbitrary":
                 for kk in ev["impact"]:
-                    ev["impact"][kk] *= random.Random(seed).choice([3.0, 8.0, 20.0])
+                    ev["impact"][kk] *= rng.choice([3.0, 8.0, 20.0])
         sc["stream"] = "excess"
+        return sc
+    if stream == "rebuild":
+        sc = scen.gen_scenario(seed, "shocked", types=["rebuild"], nev=rng.choice([1, 1, 2, 3]), T=rng.choice([20, 30]))
+        for ev in sc["events"]:
+            if ev["type"] == "rebuild" and rng.random() < 0.5:
+                ev["rebuild_tau"] = rng.choice([1, 1, 2])
+        sc["stream"] = "rebuild"
+        return sc
+    if stream == "recover":
+        sc = scen.gen_scenario(seed, "shocked", types=["recovery", "arbitrary"], nev=rng.choice([1, 2, 3]), T=rng.choice([20, 30]))
+        sc["stream"] = "recover"
+        return sc
+    if stream == "multi":
+        sc = scen.gen_scenario(seed, "shocked", nev=rng.choice([2, 3, 3, 4]), T=30, max_occ=8)
+        for ev in sc["events"]:
+            if ev["type"] == "rebuild" and rng.random() < 0.6:
+                ev["rebuild_tau"] = rng.choice([1, 1, 2])
+            if ev["type"] != "arbitrary" and rng.random() < 0.5:
+                # small events finish while others are active
+                f = rng.choice([1e-3, 1e-5, 1e-7])
+                ev["impact"] = {k: v * f for k, v in ev["impact"].items()}
+        sc["stream"] = "multi"
+        return sc
+    if stream == "units":
+        sc = scen.gen_scenario(seed, "shocked", types=["rebuild", "recovery"], nev=rng.choice([1, 2]), T=rng.choice([12, 20]))
+        mf = sc["model"]["monetary_factor"]
+        for ev in sc["events"]:
+            if ev["type"] == "arbitrary":
+                continue
+            new = rng.choice([1, 10**3, 10**6])
+            ratio = ev["emf"] / new
+            ev["impact"] = {k: v * ratio for k, v in ev["impact"].items()}
+            if ev.get("house"):
+                ev["house"] = {k: v * ratio for k, v in ev["house"].items()}
+            ev["emf"] = new
+        sc["stream"] = "units"
         return sc
     return scen.gen_scenario(seed, stream)
 
 
 def explore(pid, tier, seed, replay=None):
     res = {"violations": [], "known": [], "mismatches": [], "corr_obligations": 0, "corr_ok": 0, "scenarios": 0, "steps": 0,
-           "nontrivial": 0, "rule": "", "samples": [], "distribution": {}, "branches": {}, "ties": {}, "corpus": {}}
+           "nontrivial": 0, "rule": "", "samples": [], "distribution": {}, "branches": {}, "ties": {}, "corpus": {},
+           "paired_runs": 0}
     tag, rule = props.NONTRIVIAL.get(pid, ("", ""))
     res["rule"] = ("scenarios drawn by harness/scen.py from PRNG(seed, stream, index); one evaluation = one simulated step of the "
                    "real code; non-trivial = " + rule + "; distinct = distinct (scenario, step) pairs")
+
+    def add_violation(v, sc=None, trig=None):
+        if len(res["violations"]) < 20:
+            res["violations"].append({"violation": v, "scenario": sc, "trigger": trig})
+
     # ---- corpus first
     cres = corpus.run_all(props=[pid])
     for fid, v in cres.items():
@@ -81,10 +151,10 @@ def explore(pid, tier, seed, replay=None):
         if not v["holds"]:
             kf = known.match_trigger(pid, fid)
             if kf:
-                res["known"].append(kf)
+                if kf not in res["known"]:
+                    res["known"].append(kf)
             else:
-                res["violations"].append({"violation": {"property": pid, "what": f"corpus trigger {fid} fails: {v['doc']}", "detail": v["detail"]},
-                                          "trigger": fid})
+                add_violation({"property": pid, "what": f"corpus trigger {fid} fails: {v['doc']}", "detail": v["detail"]}, trig=fid)
     # ---- scenarios
     scenarios = []
     if replay:
@@ -103,6 +173,7 @@ def explore(pid, tier, seed, replay=None):
     C = corr.Corr(dr, stats)
     dist = {}
     seen_nontrivial = set()
+    phases = props.PHASES.get(pid, [])
     try:
         for sc in scenarios:
             kf = known.match_scenario(pid, sc)
@@ -113,40 +184,73 @@ def explore(pid, tier, seed, replay=None):
             res["scenarios"] += 1
             key = f"{sc['stream']}/{sc['table']['kind']}/{sc['model']['class']}/{sc['model']['order_type']}"
             dist[key] = dist.get(key, 0) + 1
+            for e in sc["events"]:
+                kk = "event:" + e["type"] + (":" + str(e.get("curve")) if e.get("curve") else "")
+                dist[kk] = dist.get(kk, 0) + 1
             tr = capture.run(sc)
             if len(res["samples"]) < 3:
-                res["samples"].append(scen.summarize(sc) if hasattr(scen, "summarize") else {"seed": sc["seed"]})
+                res["samples"].append(scen.summarize(sc))
             if tr.build_error:
-                dist["build_error"] = dist.get("build_error", 0) + 1
+                dist["build_error:" + tr.build_error[0]] = dist.get("build_error:" + tr.build_error[0], 0) + 1
+                for oname in props.RUN_ORACLES.get(pid, []):
+                    if oname in ("c01", "c11_run"):
+                        for v in RUN_FUNCS[oname](tr, None):
+                            add_violation(v, sc)
                 continue
             c = oracles.consts(tr.model)
+            mm_all = []
             try:
+                # construction obligations are about freshly built objects
+                if "mkparams" in props.INIT_OBLIGATIONS.get(pid, []):
+                    mm_all += corr.mkparams_obligation(dr, sc, scen.build_model(sc["table"], sc["model"]), stats)
+                if "trackerinit" in props.INIT_OBLIGATIONS.get(pid, []) and sc["events"]:
+                    mm_all += corr.trackerinit_obligation(dr, sc, scen.build_sim(sc), stats)
                 C.set_params(tr.model)
             except NonFinite as e:
-                res["mismatches"].append({"scenario_seed": sc["seed"], "phase": "params", "what": str(e)})
+                mm_all.append(corr.Mismatch(phase="construction", var="non-finite", what=str(e)))
+                for m_ in mm_all:
+                    m_["scenario_seed"] = sc["seed"]
+                res["mismatches"].extend(dict(x) for x in mm_all[:5])
                 continue
             if tr.step_error:
                 dist["step_error:" + tr.step_error[1]] = dist.get("step_error:" + tr.step_error[1], 0) + 1
             for st in tr.steps:
                 res["steps"] += 1
                 try:
-                    mm = C.step(st, tr.sim, phases=props.PHASES.get(pid))
+                    mm = C.step(st, tr.sim, phases=phases) if phases else []
                 except NonFinite as e:
                     mm = [corr.Mismatch(phase="state", var="non-finite", what=str(e), t=st["t"])]
-                for m_ in mm:
-                    m_["scenario_seed"] = sc["seed"]
-                    m_["stream"] = sc["stream"]
-                    if len(res["mismatches"]) < 20:
-                        res["mismatches"].append(dict(m_))
+                mm_all += mm
                 for oname in props.STEP_ORACLES.get(pid, []):
-                    for v in oracles.PER_STEP[oname](tr, st, c):
-                        if len(res["violations"]) < 20:
-                            res["violations"].append({"violation": v, "scenario": sc})
-                if nontrivial_step(pid, st, c):
+                    for v in STEP_FUNCS[oname](tr, st, c):
+                        if oname != pid:
+                            v["property"] = pid
+                        add_violation(v, sc)
+                if nontrivial_step(pid, sc, st, c):
                     seen_nontrivial.add((sc["seed"], st["t"]))
-            for v in run_oracles(pid, tr, c):
-                if len(res["violations"]) < 20:
-                    res["violations"].append({"violation": v, "scenario": sc})
+            for m_ in mm_all:
+                m_["scenario_seed"] = sc["seed"]
+                m_["stream"] = sc["stream"]
+                if len(res["mismatches"]) < 20:
+                    res["mismatches"].append(dict(m_))
+            for oname in props.RUN_ORACLES.get(pid, []):
+                for v in RUN_FUNCS[oname](tr, c):
+                    add_violation(v, sc)
+            # paired runs
+            pnames = props.PAIRED.get(pid, [])
+            if pnames:
+                base = paired.run_records(sc)
+                for pn in pnames:
+                    fn = getattr(paired, pn)
+                    res["paired_runs"] += 1
+                    if pn in ("c10_prefix",):
+                        vs = fn(sc, base)
+                    elif pn in ("c18_variants", "c18_orders"):
+                        vs = fn(sc, sc["seed"])
+                    else:
+                        vs = fn(sc, base, sc["seed"])
+                    for v in vs:
+                        add_violation(v, sc)
     finally:
         dr.close()
     res["corr_obligations"] = stats.obligations
@@ -156,12 +260,3 @@ def explore(pid, tier, seed, replay=None):
     res["branches"] = stats.branches
     res["ties"] = stats.ties
     return res
-
-
-def run_oracles(pid, tr, c):
-    out = []
-    if pid == "C05":
-        out += oracles.c05_run(tr, c)
-    if pid == "C07":
-        out += oracles.c07_capital(tr, c)
-    return out
